@@ -62,6 +62,17 @@ CHECKS = {
         "Well-formed = recognised ASCII keys, no duplicates, nchans>=1, nbits present, finite values. Sky position tolerance 0.01 arcsec.",
         "DESIGN.md section 3 C05",
     ),
+    "C06": (
+        "exploration",
+        "bounded-exhaustive enumeration of (reduction, depth, file split, gulp, sub-range, DM) on real files vs numpy",
+        "collapse, bandpass, read_chan(every c), dedisperse(DM set from all-zero delays to maxdelay=nsamps-1), compute_stats and "
+        "compute_stats_basic are run for every gulp 1..N+1 and 10N and every (start,nsamps) of an N=10(16)-sample file set at depths "
+        "8/32/4(/1/2) and compared exactly with numpy on X[start:start+nsamps] (integer-valued labels make float32 sums exact); results "
+        "for all gulps of one sub-range are compared bit-for-bit; moments within 50*eps32*n of two-pass float64.",
+        "Delay tables come from the library's own get_dmdelays (checked in C09); only non-negative delay tables; maxdelay>=nsamps skipped. "
+        "Nothing above N=16 samples / 8 channels is explored.",
+        "DESIGN.md section 3 C06",
+    ),
 }
 
 ENGINES = [
